@@ -39,11 +39,11 @@ type oracles struct {
 
 	refCache map[string][]*oracle.StreamSig
 
-	convJobActive bool
-	convLogLen    int
-	attachedAtSpawn map[string]bool
+	convJobActive     bool
+	convLogLen        int
+	attachedAtSpawn   map[string]bool
 	convSpawnAttached map[int]map[string]bool // convert job seq -> converters attached when it was spawned
-	onDemand  map[string]bool // "conv/stream" converted on demand by a user
+	onDemand          map[string]bool         // "conv/stream" converted on demand by a user
 
 	stateSigs map[string]bool
 
@@ -58,10 +58,42 @@ func newOracles(s *Sim) *oracles {
 	return &oracles{s: s, prop: s.plan.Prop, held: map[int]*heldView{}, refCache: map[string][]*oracle.StreamSig{}, convSpawnAttached: map[int]map[string]bool{}, onDemand: map[string]bool{}, stateSigs: map[string]bool{}}
 }
 
-func (o *oracles) violate(oracleName, sig, msg string) {
-	if o.s.res.Viol == nil {
-		o.s.res.Viol = &sim.Violation{Property: o.prop, Oracle: oracleName, Signature: sig, Message: fmt.Sprintf("step %d (%s): %s", o.s.stepNo, lastOf(o.s.steps), msg)}
+// trigger names the kind of step at which a violation was first observed.
+func (o *oracles) trigger() string {
+	l := lastOf(o.s.steps)
+	if id, ok := strings.CutPrefix(l, "api:"); ok {
+		for _, op := range o.s.plan.Ops {
+			if fmt.Sprint(op.ID) == id {
+				return "api:" + op.K
+			}
+		}
 	}
+	if i := strings.Index(l, "#"); i > 0 {
+		return l[:i]
+	}
+	return l
+}
+
+// violate records a violation. A violation whose key is listed as a known
+// finding is only counted (with its first message) and the run goes on, so
+// that a known defect does not hide other violations; the return value
+// tells the caller whether the run is over.
+func (o *oracles) violate(oracleName, sig, msg string) bool {
+	v := &sim.Violation{Property: o.prop, Oracle: oracleName, Signature: sig, Message: fmt.Sprintf("step %d (%s): %s", o.s.stepNo, lastOf(o.s.steps), msg)}
+	if sim.Known[v.Key()] {
+		o.s.res.Count("known:"+v.Key(), 1)
+		if o.s.res.KnownMsg == nil {
+			o.s.res.KnownMsg = map[string]string{}
+		}
+		if _, ok := o.s.res.KnownMsg[v.Key()]; !ok {
+			o.s.res.KnownMsg[v.Key()] = v.Message
+		}
+		return false
+	}
+	if o.s.res.Viol == nil {
+		o.s.res.Viol = v
+	}
+	return true
 }
 
 func lastOf(l []string) string {
@@ -155,11 +187,45 @@ func defRefs(def string) []string {
 	return out
 }
 
+// atoms counts the filter terms of a definition (rough: one per key:value).
+func atoms(def string) int {
+	n := strings.Count(def, ":") - 2*strings.Count(def, "@o:")
+	if n < 1 {
+		n = 1
+	}
+	return n
+}
+
+// inlineWeight estimates how large a tag becomes when the search engine has
+// to inline it (undecided tags are replaced by their definitions, a
+// construction that grows super-exponentially along reference chains; that
+// is a property of the normal form, not something the checks are about).
+func inlineWeight(defs map[string]string, name string, depth int) int {
+	if depth > 8 {
+		return 1 << 20
+	}
+	def, ok := defs[name]
+	if !ok {
+		return 1
+	}
+	w := atoms(def)
+	if strings.Contains(def, " or ") {
+		w *= 2
+	}
+	for _, r := range defRefs(def) {
+		w *= 1 + inlineWeight(defs, r, depth+1)
+	}
+	return w
+}
+
+const maxInlineWeight = 12
+
 // admit keeps runs of other properties away from the inputs C11 is about
 // (dangling references and cycles created through updates), so that a C11
-// defect does not masquerade as a violation of the property under test.
+// defect does not masquerade as a violation of the property under test,
+// and keeps the tag graph small enough for searches to stay prompt.
 func (o *oracles) admit(op Op) bool {
-	if o.prop == "C11" || o.s.plan.NoOracle && o.prop == "C11" {
+	if o.prop == "C11" {
 		return true
 	}
 	if op.K != "AddTag" && op.K != "UpdQuery" {
@@ -173,7 +239,44 @@ func (o *oracles) admit(op Op) bool {
 			return false
 		}
 	}
+	if o.state != nil {
+		defs := map[string]string{}
+		for _, t := range o.state.Tags {
+			defs[t.Name] = t.Definition
+		}
+		defs[op.Name] = op.Def
+		for n := range defs {
+			if inlineWeight(defs, n, 0) > maxInlineWeight {
+				return false
+			}
+		}
+	}
 	return true
+}
+
+// negatable: a negated search on this tag stays small.
+func (o *oracles) negatable(name string) bool {
+	defs := map[string]string{}
+	for _, t := range o.state.Tags {
+		defs[t.Name] = t.Definition
+	}
+	// negated protocol conditions and negated sub-queries are excluded: the
+	// former make normalisation take seconds, the latter are outside what
+	// the query language supports (sub-queries are restricted, C02)
+	var closure func(n string, d int) bool
+	closure = func(n string, d int) bool {
+		def := defs[n]
+		if d > 8 || strings.Contains(def, "protocol") || strings.Contains(def, "@") {
+			return false
+		}
+		for _, r := range defRefs(def) {
+			if !closure(r, d+1) {
+				return false
+			}
+		}
+		return true
+	}
+	return closure(name, 0) && inlineWeight(defs, name, 0) <= 3 && strings.Count(defs[name], "data") <= 1
 }
 
 func (o *oracles) beforeAPI(op Op) {}
@@ -243,7 +346,10 @@ func (o *oracles) battery() []string {
 	b := []string{"sport:80", "cport:20000:30000", "data:\"FLAG\"", "cdata:alpha sort:id", "sbytes:100: sort:-id", "chost:10.0.1.0/24", "protocol:udp", "id:1:4", "sort:ftime", "sort:-ftime limit:3", "sort:id limit:2", "data:\"[a-z]beta\" or sport:443", "-data:\"passwd\" sort:cbytes,id", "ftime:\"2020-09-13 000000:\" sort:ltime,id", "host:fd00::1:0/112"}
 	if o.state != nil {
 		for _, t := range o.state.Tags {
-			b = append(b, refName(t.Name), "-"+refName(t.Name)+" sort:id")
+			b = append(b, refName(t.Name))
+			if o.negatable(t.Name) {
+				b = append(b, "-"+refName(t.Name)+" sort:id")
+			}
 		}
 	}
 	return b
@@ -457,11 +563,10 @@ func convReading(def string) bool {
 
 func (o *oracles) checkTags(st stepRef) {
 	r := o.s.probe(Op{K: "Recompute"})
-	if len(r.GErr) != 0 {
-		for _, n := range sortedKeys(r.GErr) {
-			// a definition the reference cannot evaluate: not a verdict about C06
+	for _, n := range sortedKeys(r.GErr) {
+		// a definition the reference cannot evaluate: not a verdict about C06
+		if r.GErr[n] != "impossible" {
 			o.s.res.Count("recompute_errors", 1)
-			_ = n
 		}
 	}
 	// transitive: a tag referencing a converter-reading tag also depends on the cache
@@ -509,8 +614,9 @@ func (o *oracles) checkTags(st stepRef) {
 				if st.kind == "final" {
 					class += "/quiescent"
 				}
-				o.violate("tag-stale", class+"/"+kind, fmt.Sprintf("tag %s (%q): stream %d is reported decided, member=%v, but evaluating the definition gives %v (matches=%v uncertain=%v recomputed=%v)", t.Name, t.Definition, s, M[s], G[s], t.Matches, t.Uncertain, g))
-				return
+				if o.violate("tag-stale", class+"/"+kind+"@"+o.trigger(), fmt.Sprintf("tag %s (%q): stream %d is reported decided, member=%v, but evaluating the definition gives %v (matches=%v uncertain=%v recomputed=%v)", t.Name, t.Definition, s, M[s], G[s], t.Matches, t.Uncertain, g)) {
+					return
+				}
 			}
 		}
 		o.s.res.Count("c06_tag_checks", 1)
@@ -518,7 +624,10 @@ func (o *oracles) checkTags(st stepRef) {
 	// what a user sees through a view opened now
 	var battery []string
 	for _, t := range o.state.Tags {
-		battery = append(battery, refName(t.Name)+" sort:id", "-"+refName(t.Name)+" sort:id")
+		battery = append(battery, refName(t.Name)+" sort:id")
+		if o.negatable(t.Name) {
+			battery = append(battery, "-"+refName(t.Name)+" sort:id")
+		}
 	}
 	if o.convJobActive {
 		return
@@ -530,8 +639,9 @@ func (o *oracles) checkTags(st stepRef) {
 		if v != nil {
 			msg = v.Err
 		}
-		o.violate("view", "view-error", "fresh view failed: "+msg)
-		return
+		if o.violate("view", "view-error", "fresh view failed: "+msg) {
+			return
+		}
 	}
 	var all []uint64
 	for _, sl := range v.Streams {
@@ -556,8 +666,9 @@ func (o *oracles) checkTags(st stepRef) {
 				}
 			}
 			if has != G[uint(sl.ID)] {
-				o.violate("view-tags", defClass(t.Definition)+"/shown", fmt.Sprintf("view shows tag %s on stream %d = %v, definition %q evaluates to %v", t.Name, sl.ID, has, t.Definition, G[uint(sl.ID)]))
-				return
+				if o.violate("view-tags", defClass(t.Definition)+"/shown", fmt.Sprintf("view shows tag %s on stream %d = %v, definition %q evaluates to %v", t.Name, sl.ID, has, t.Definition, G[uint(sl.ID)])) {
+					return
+				}
 			}
 		}
 		for _, neg := range []bool{false, true} {
@@ -569,7 +680,10 @@ func (o *oracles) checkTags(st stepRef) {
 				o.s.res.Count("c06_search_errors", 1)
 				continue
 			}
-			got := v.Search[q]
+			got, asked := v.Search[q]
+			if !asked {
+				continue
+			}
 			var want []uint64
 			for _, id := range all {
 				if G[uint(id)] != neg {
@@ -577,8 +691,17 @@ func (o *oracles) checkTags(st stepRef) {
 				}
 			}
 			if fmt.Sprint(got) != fmt.Sprint(want) {
-				o.violate("search-tags", defClass(t.Definition)+"/search", fmt.Sprintf("search %q returned %v, want %v (tag %s = %q)", q, got, want, t.Name, t.Definition))
-				return
+				class := defClass(t.Definition)
+				if r.GErr[t.Name] == "impossible" {
+					class = "impossible-definition"
+				}
+				pol := "positive"
+				if neg {
+					pol = "negated"
+				}
+				if o.violate("search-tags", class+"/"+pol+"-search", fmt.Sprintf("search %q returned %v, want %v (tag %s = %q)", q, got, want, t.Name, t.Definition)) {
+					return
+				}
 			}
 			o.s.res.Count("c06_search_checks", 1)
 		}
